@@ -154,6 +154,7 @@ class TextFileStorage(Storage[str]):
             self._index[:] = []
             self._stored_cnt.value = 0
             self._waiting_for.value = 0
+            self._process_identifier = None
 
     def is_contiguous(self) -> bool:
         """
